@@ -88,17 +88,29 @@ def ra10_parse_u128(u, key, text):
 
 
 def ra11_lines_loop(u, key, text):
-    """RA11: `for (i, line) in source.lines().enumerate() {` -> `let lexa_lines = lexa_str_lines(source);
-    for i in 0..lexa_lines.len() { let line = lexa_lines[i];`  where lexa_str_lines is the trusted wrapper
-    `source.lines().collect::<Vec<&str>>()` (prelude/lexa_std.rs).  `str::lines` is lazy but pure and the body only holds a
-    shared borrow of `source`, so collecting first and indexing is the same iteration (cf. R1/R17)."""
-    pat = re.compile(r'for \((\w+), (\w+)\) in (\w+)\.lines\(\)\.enumerate\(\)(\s*)\{')
+    """RA11: `for (i, full_line) in source.split_inclusive('\\n').enumerate() {` ->
+    `let lexa_pieces = lexa_split_inclusive(source); for i in 0..lexa_pieces.len() { let full_line = lexa_pieces[i];`
+    where lexa_split_inclusive is the trusted wrapper `source.split_inclusive('\\n').collect::<Vec<&str>>()`
+    (prelude/lexa_std.rs) with the exact model of that std function.  The iterator is lazy but pure and the body only holds
+    a shared borrow of `source`, so collecting first and indexing is the same iteration (cf. R1/R17)."""
+    pat = re.compile(r"for \((\w+), (\w+)\) in (\w+)\.split_inclusive\('\\n'\)\.enumerate\(\)(\s*)\{")
     m = pat.search(text)
     if not m:
-        raise LostAnchor('%s: RA11 `for (i, line) in S.lines().enumerate()` not found' % key)
+        raise LostAnchor("%s: RA11 `for (i, line) in S.split_inclusive('\\n').enumerate()` not found" % key)
     u.rules['RA11'] += 1
-    return text[:m.start()] + 'let lexa_lines = lexa_str_lines(%s);%sfor %s in 0..lexa_lines.len()%s{%s\tlet %s = lexa_lines[%s];' % (
+    return text[:m.start()] + 'let lexa_pieces = lexa_split_inclusive(%s);%sfor %s in 0..lexa_pieces.len()%s{%s\tlet %s = lexa_pieces[%s];' % (
         m.group(3), m.group(4), m.group(1), m.group(4), m.group(4), m.group(2), m.group(1)) + text[m.end():]
+
+
+def ra14_strip_suffix_char(u, key, text):
+    """RA14: `E.strip_suffix('c')` (generic over the std Pattern trait, which Verus cannot specify) ->
+    `lexa_strip_suffix_char(E, 'c')`, a trusted wrapper around the same call for a char pattern"""
+    pat = re.compile(r"\b(\w+)\.strip_suffix\(('(?:\\.|[^'])')\)")
+    n = len(pat.findall(text))
+    if n:
+        u.rules['RA14'] += n
+        text = pat.sub(r'lexa_strip_suffix_char(\1, \2)', text)
+    return text
 
 
 def ra12_chars_count(u, key, text):
@@ -125,5 +137,6 @@ def ra13_str_len(u, key, text):
 
 from vlib import rules
 LEX_RULES = [ra11_lines_loop, ra12_chars_count, ra13_str_len]
+STRIP_RULES = [ra14_strip_suffix_char]
 LEX_LINE_RULES = [rules.r26_map_or_match, ra5_char_peek_iter, ra6_by_value_patterns, str_patterns, ra9_hoist_for_temporary, ra8_char_to_string,
                   ra10_parse_u128]
